@@ -44,8 +44,9 @@ func builtinStringFromCharCode(call FunctionCall) Value {
 
 func builtinStringCharAt(call FunctionCall) Value {
 	checkObjectCoercible(call.runtime, call.This)
+	str := newStringObject(call.This.string())
 	idx := int(call.Argument(0).number().int64)
-	chr := stringAt(call.This.object().stringValue(), idx)
+	chr := stringAt(str, idx)
 	if chr == stringAtNone {
 		return stringValue("")
 	}
@@ -54,8 +55,9 @@ func builtinStringCharAt(call FunctionCall) Value {
 
 func builtinStringCharCodeAt(call FunctionCall) Value {
 	checkObjectCoercible(call.runtime, call.This)
+	str := newStringObject(call.This.string())
 	idx := int(call.Argument(0).number().int64)
-	chr := stringAt(call.This.object().stringValue(), idx)
+	chr := stringAt(str, idx)
 	if chr == stringAtNone {
 		return NaNValue()
 	}
